@@ -24,7 +24,7 @@ pub fn bases(all: bool) -> Vec<Base> {
     for carrier in [Carrier::Header, Carrier::Query] {
         for opt in 0..3u8 {
             for token in [false, true] {
-                for shape in 0..7u8 {
+                for shape in 0..8u8 {
                     let quick_pick = matches!(
                         (carrier, opt, token, shape),
                         (Carrier::Header, 0, false, 1)
@@ -41,6 +41,8 @@ pub fn bases(all: bool) -> Vec<Base> {
                             | (Carrier::Header, 0, false, 5)
                             | (Carrier::Header, 0, false, 6)
                             | (Carrier::Query, 0, false, 6)
+                            | (Carrier::Header, 0, false, 7)
+                            | (Carrier::Query, 0, false, 7)
                     );
                     if !all && !quick_pick {
                         continue;
@@ -75,6 +77,16 @@ pub fn bases(all: bool) -> Vec<Base> {
                             // lossy decoding of other byte strings would also produce
                             p.headers.push(("X-Amz-Meta-Owner".into(), b"Andr\xef\xbf\xbd \xef\xbf\xbd\xef\xbf\xbd".to_vec()));
                             p.signed.push("x-amz-meta-owner".into());
+                        }
+                        7 => {
+                            // a request stamped on the last second of a minute whose date header is not among the
+                            // signed headers: only the timestamp line of the string to sign binds the date
+                            p.instant = refmodel::Instant::new(now.secs - 1, 0);
+                            p.date_text = p.instant.compact();
+                            let d8 = p.instant.date8();
+                            p.scope = format!("{}/us-east-1/service/aws4_request", d8);
+                            p.key = refmodel::hmac::chain(e2e::SECRET.as_bytes(), &d8, b"us-east-1", b"service").ksigning;
+                            p.signed.retain(|h| h != "x-amz-date");
                         }
                         6 => {
                             // signed list-valued headers: one field holding a list (cookie pairs, media ranges) and a
@@ -456,6 +468,30 @@ pub fn mutants(b: &Base, uri_bytes: &[u8], reduced: bool) -> Vec<Mutant> {
             p.date_text = refmodel::Instant::new(inst.secs + delta, 0).compact();
         });
     }
+    // the same wall-clock fields with the seconds (minutes, hours) field one beyond its range -- :60 and :61 after :59,
+    // minute 60, hour 24 -- in basic and extended form, with a fraction and in another zone: no timestamp at all, or
+    // another instant, never the one that was signed
+    {
+        let (y, mo, d, h, mi, sec) = inst.civil();
+        let mut texts: Vec<String> = Vec::new();
+        for s2 in [sec + 1, sec + 2, 60, 61, 99] {
+            texts.push(format!("{:04}{:02}{:02}T{:02}{:02}{:02}Z", y, mo, d, h, mi, s2));
+            texts.push(format!("{:04}-{:02}-{:02}T{:02}:{:02}:{:02}Z", y, mo, d, h, mi, s2));
+            texts.push(format!("{:04}{:02}{:02}T{:02}{:02}{:02}.250Z", y, mo, d, h, mi, s2));
+            texts.push(format!("{:04}{:02}{:02}T{:02}{:02}{:02}+0200", y, mo, d, h + 2, mi, s2));
+        }
+        texts.push(format!("{:04}{:02}{:02}T{:02}60{:02}Z", y, mo, d, h, sec));
+        texts.push(format!("{:04}{:02}{:02}T24{:02}{:02}Z", y, mo, d, mi, sec));
+        texts.push(format!("{:04}{:02}{:02}T{:02}{:02}{:02}.999999999Z", y, mo, d, h, mi, sec));
+        texts.push(format!("{:04}{:02}{:02}T{:02}{:02}{:02},5Z", y, mo, d, h, mi, sec));
+        texts.sort();
+        texts.dedup();
+        for t in texts {
+            resign(&format!("date-text={}", t), &|p: &mut Plan| {
+                p.date_text = t.clone();
+            });
+        }
+    }
     for r in 1..6u64 {
         resign(&format!("instant+1s-rendering{}", r), &|p: &mut Plan| {
             p.instant = refmodel::Instant::new(inst.secs + 1, 0);
@@ -566,30 +602,25 @@ pub fn judge_mutant(index: u64, base: &Base, m: &Mutant, st: &mut Stats) {
     st.evaluations += 1;
     st.transitions += 2;
     // non-initial state: the genuine request has just been accepted on this very thread
-    let returned_parts = {
+    {
         let mut p = ProvSpec::standard().to_provider();
-        match crate::sut::validate(&base.wire, &base.cfg, &mut p) {
-            SutResult::Ok(ok) => Some(ok.parts),
-            _ => None,
-        }
-    };
+        let _ = crate::sut::validate(&base.wire, &base.cfg, &mut p);
+    }
     let case = Case { wire: m.wire.clone(), cfg: base.cfg.clone(), prov: m.prov.clone() };
     let j = e2e::judge(&case);
-    // the parts the validator handed back for the genuine request (whatever it left in them: extensions, rewritten
-    // fields), resubmitted with the mutated body: judged like the fresh mutated request
-    if let Some(parts) = returned_parts {
-        let body_only = m.wire.body != base.wire.body && m.wire.method == base.wire.method && m.wire.uri == base.wire.uri && m.wire.headers == base.wire.headers && matches!(&m.prov, ProvSpec::Derive(db) if db.iter().any(|(a, k)| a == e2e::ACCESS_KEY && k == e2e::SECRET)) && !base.cfg.fold;
-        if body_only && !crate::env::ambient_b() {
-            st.transitions += 1;
-            let req = http::Request::from_parts(parts, bytes::Bytes::from(m.wire.body.clone()));
-            let mut p = m.prov.to_provider();
-            let r = crate::sut::validate_http(req, &base.cfg, &mut p, 64);
-            if r.is_ok() && !j.reference.accepted() && !j.unspecified {
+    // the Parts the validator handed back for the genuine request (whatever it left in them: extensions, rewritten
+    // fields) carrying the mutant's method, target, headers and body: judged like the fresh mutated request
+    if matches!(&m.prov, ProvSpec::Derive(db) if db.iter().any(|(a, k)| a == e2e::ACCESS_KEY && k == e2e::SECRET)) && !crate::env::ambient_b() && !j.reference.accepted() && !j.unspecified && j.known.is_none() {
+        st.transitions += 1;
+        let mut pb = ProvSpec::standard().to_provider();
+        let mut pe = m.prov.to_provider();
+        if let Some(r) = crate::sut::validate_resubmitted(&base.wire, &m.wire, &base.cfg, &mut pb, &mut pe) {
+            if r.is_ok() {
                 st.violation(Violation {
                     index,
-                    what: "forgery-accepted:the-returned-parts-of-the-genuine-request-resubmitted-with-another-body".into(),
+                    what: "forgery-accepted:the-returned-parts-of-the-genuine-request-resubmitted-as-the-mutated-request".into(),
                     case: json!({"e2e": case, "base": base.name, "mutation": m.label, "resubmitted_parts_of": Case { wire: base.wire.clone(), cfg: base.cfg.clone(), prov: ProvSpec::standard() }}),
-                    expected: "refused (the body is not the one the signature covers)".into(),
+                    expected: "refused (the request is not the one the signature covers)".into(),
                     observed: "Ok".into(),
                     known: None,
                 });
@@ -799,7 +830,7 @@ pub fn run(ctx: &Ctx) -> Report {
     Report {
         stats: st,
         rule: format!(
-            "{} validly signed base requests (carrier x options x token x shape, one shape carrying x-amz-content-sha256 / Content-Length / Content-MD5 as S3 clients do), each accepted by implementation and reference; for each, every single-component mutation: 13 methods; every URI position x every byte http admits ({} values) + 7 insertions + deletion per position; every header (signed — list-valued ones split at every list separator into two fields, adjacent fields of one name joined by 6 separators or swapped, each under HTTP/1.0, 1.1, 2 and 3; one value holds Latin-1 bytes, a UTF-8 sequence and the replacement character U+FFFD; another is valid UTF-8 made of replacement characters only —, unsigned, Authorization, date, token) position x 11 bytes (incl. 0xE8, 0xE9, 0xA0, 0xC3) + insertion + deletion, header removed/added/duplicated/renamed; every bit of every body byte, truncations, appends, byte-order marks / zero-width space / CR LF inserted into bodies; old signature transplanted onto requests re-signed with a changed instant (10 deltas, 5 renderings), date text, 12 scope near-misses, 5 access keys, signed-list drops/additions, token changes; provider key: all 256 single-bit flips, 5 off-by-one derivations, another secret; signature: every digit x 15 other values, upper case, every truncation, extensions, all hex strings of length <= 2{}. Finally the genuine request, a forged one under its signature (method / path / body changed) and the genuine one again are validated as two (thorough: three) futures multiplexed on one thread against a provider that is Pending first, in every order of polls. Each mutant is validated right after the genuine request was accepted on the same thread (so a remembered success cannot vouch for it); body mutants are also submitted as the Parts the validator returned for the genuine request combined with the mutated body (whatever the validator left in those parts cannot vouch for another body). Oracle: the implementation may return Ok only if the reference verifier, run on the request as received with the key the provider handed out, accepts. states = distinct reference strings-to-sign (+ refusal stage); non-trivial = distinct (mutated request, provider)",
+            "{} validly signed base requests (carrier x options x token x shape, one shape carrying x-amz-content-sha256 / Content-Length / Content-MD5 as S3 clients do), each accepted by implementation and reference; for each, every single-component mutation: 13 methods; every URI position x every byte http admits ({} values) + 7 insertions + deletion per position; every header (signed — list-valued ones split at every list separator into two fields, adjacent fields of one name joined by 6 separators or swapped, each under HTTP/1.0, 1.1, 2 and 3; one value holds Latin-1 bytes, a UTF-8 sequence and the replacement character U+FFFD; another is valid UTF-8 made of replacement characters only —, unsigned, Authorization, date, token) position x 11 bytes (incl. 0xE8, 0xE9, 0xA0, 0xC3) + insertion + deletion, header removed/added/duplicated/renamed; every bit of every body byte, truncations, appends, byte-order marks / zero-width space / CR LF inserted into bodies; old signature transplanted onto requests re-signed with a changed instant (10 deltas, 5 renderings), date text (also with a seconds / minutes / hours field one or two beyond its range, in four forms; one base is stamped on the last second of a minute with its date header unsigned), 12 scope near-misses, 5 access keys, signed-list drops/additions, token changes; provider key: all 256 single-bit flips, 5 off-by-one derivations, another secret; signature: every digit x 15 other values, upper case, every truncation, extensions, all hex strings of length <= 2{}. Finally the genuine request, a forged one under its signature (method / path / body changed) and the genuine one again are validated as two (thorough: three) futures multiplexed on one thread against a provider that is Pending first, in every order of polls. Each mutant is validated right after the genuine request was accepted on the same thread (so a remembered success cannot vouch for it); every mutant the reference refuses is also submitted as the Parts the validator returned for the genuine request, overwritten with the mutant's method, target, headers and body (whatever the validator left in those Parts cannot vouch for another request). Oracle: the implementation may return Ok only if the reference verifier, run on the request as received with the key the provider handed out, accepts. states = distinct reference strings-to-sign (+ refusal stage); non-trivial = distinct (mutated request, provider)",
             bs.len(), uri_bytes.len(),
             if thorough { "; plus all pairs over ~600 strided mutation sites on four bases" } else { "" }
         ),
@@ -828,20 +859,18 @@ pub fn replay_resubmit(case: &serde_json::Value) -> i32 {
             return 2;
         }
     };
-    let mut p = genuine.prov.to_provider();
-    let parts = match crate::sut::validate(&genuine.wire, &genuine.cfg, &mut p) {
-        SutResult::Ok(ok) => ok.parts,
-        other => {
-            println!("the genuine request is not accepted ({}): nothing to resubmit", other.label());
+    let mut pb = genuine.prov.to_provider();
+    let mut pe = mutant.prov.to_provider();
+    let r = match crate::sut::validate_resubmitted(&genuine.wire, &mutant.wire, &mutant.cfg, &mut pb, &mut pe) {
+        Some(r) => r,
+        None => {
+            println!("the genuine request is not accepted: nothing to resubmit");
             return 2;
         }
     };
-    let req = http::Request::from_parts(parts, bytes::Bytes::from(mutant.wire.body.clone()));
-    let mut p = mutant.prov.to_provider();
-    let r = crate::sut::validate_http(req, &mutant.cfg, &mut p, 64);
-    println!("genuine request accepted; its returned parts resubmitted with a body of {} bytes (signed body: {} bytes): {}", mutant.wire.body.len(), genuine.wire.body.len(), r.label());
+    println!("genuine request accepted; its returned parts resubmitted as the mutated request: {}", r.label());
     if r.is_ok() {
-        println!("disagreement: a body the signature does not cover was accepted");
+        println!("disagreement: a request the signature does not cover was accepted");
         1
     } else {
         println!("agrees");
